@@ -1280,6 +1280,9 @@ func c07ALPN(c *Ctx, r *Report, rule string) {
 		{[]string{"x-{env.L4_PROTO}"}, []string{"x-h2"}},
 		{[]string{"{env.L4_EMPTY}", "h2"}, []string{"h2"}},
 		{[]string{"{env.L4_PROTO}"}, []string{"{env.L4_PROTO}"}},
+		// braces that are no placeholder are part of the id
+		{[]string{"a{b}c"}, []string{"a{b}c"}},
+		{[]string{"a{b}c"}, []string{"ac"}},
 	}
 	alpnEnv := func(key string) (string, bool) {
 		switch key {
@@ -1294,7 +1297,7 @@ func c07ALPN(c *Ctx, r *Report, rule string) {
 		want := false
 		for _, a := range cs.cfg {
 			for _, b := range cs.offered {
-				if caddyReplace(a, "", true, alpnEnv) == b {
+				if caddyReplace(a, "", false, alpnEnv) == b {
 					want = true
 				}
 			}
@@ -1320,8 +1323,8 @@ func c07ALPN(c *Ctx, r *Report, rule string) {
 				return symNil(), true
 			case strings.HasSuffix(callee, "caddy/v2.NewReplacer"):
 				return symRef("repl", false), true
-			case strings.HasSuffix(callee, "Replacer).ReplaceAll") && len(args) == 3 && args[1].K == "str" && args[1].Known && args[2].K == "str" && args[2].Known:
-				return symStr(caddyReplace(args[1].S, args[2].S, true, alpnEnv)), true
+			case (strings.HasSuffix(callee, "Replacer).ReplaceAll") || strings.HasSuffix(callee, "Replacer).ReplaceKnown")) && len(args) == 3 && args[1].K == "str" && args[1].Known && args[2].K == "str" && args[2].Known:
+				return symStr(caddyReplace(args[1].S, args[2].S, strings.HasSuffix(callee, ".ReplaceAll"), alpnEnv)), true
 			}
 			return inner(callee, args, ev, st)
 		}
